@@ -383,8 +383,10 @@ func (r *Reconciler) Reconcile(ctx context.Context, req reconcile.Request) (reco
 		}
 
 		// Set oldest revision to the lowest numbered revision and
-		// record its index.
-		if revisionNum < oldestRevision {
+		// record its index. The current revision is never a candidate for
+		// garbage collection: after a rollback it may still carry the lowest
+		// number here, because it is only renumbered below.
+		if revisionNum < oldestRevision && rev.GetName() != p.GetCurrentRevision() {
 			oldestRevision = revisionNum
 			oldestRevisionIndex = index
 		}
